@@ -5,6 +5,8 @@ package x509
 import (
 	"bytes"
 	"crypto"
+	"errors"
+	"io"
 	"math/big"
 	"net"
 	"time"
@@ -12,6 +14,7 @@ import (
 	"github.com/zmap/zcrypto/encoding/asn1"
 	vr "github.com/zmap/zcrypto/internal/verifrt"
 	"github.com/zmap/zcrypto/rsa"
+	"github.com/zmap/zcrypto/x509/ct"
 	"github.com/zmap/zcrypto/x509/pkix"
 )
 
@@ -33,8 +36,8 @@ func c01RichCertificate() []byte {
 		SubjectKeyId: []byte{1, 2}, AuthorityKeyId: []byte{3, 4},
 		DNSNames: []string{"a.example"}, EmailAddresses: []string{"a@b"}, IPAddresses: []net.IP{{10, 0, 0, 1}},
 		OCSPServer: []string{"http://o/"}, CRLDistributionPoints: []string{"http://c/"},
-		PolicyIdentifiers:  []asn1.ObjectIdentifier{{2, 23, 140, 1, 2, 1}},
-		PermittedDNSNames:  []GeneralSubtreeString{{Data: "example"}},
+		PolicyIdentifiers:   []asn1.ObjectIdentifier{{2, 23, 140, 1, 2, 1}},
+		PermittedDNSNames:   []GeneralSubtreeString{{Data: "example"}},
 		ExcludedIPAddresses: []GeneralSubtreeIP{{Data: net.IPNet{IP: net.IP{10, 0, 0, 0}, Mask: net.IPMask{255, 0, 0, 0}}}},
 	}
 	der, err := CreateCertificate(nil, tmpl, tmpl, pub, c03Signer{pub: pub, cap: &c03Capture{}})
@@ -131,3 +134,32 @@ func VerifH_C20_parse_certificate_mutations_b() { c01ParseMutated(1, 3) }
 
 // verif: covers=strict-ok,both-reject maxsplit=700
 func VerifH_C20_parse_certificate_mutations_c() { c01ParseMutated(2, 3) }
+
+// C01: the embedded SCT-list extension parser (reached from ParseCertificate for any
+// certificate carrying the extension) on an arbitrary OCTET STRING body. The SCT
+// deserialiser itself is decided by the ct harnesses and is a stub here.
+// verif: covers=accepted,rejected
+func VerifH_C01_sct_list_extension_total() {
+	sctOK := vr.Bool("sctParses")
+	vr.Stub("github.com/zmap/zcrypto/x509/ct.DeserializeSCT", func(r io.Reader) (*ct.SignedCertificateTimestamp, error) {
+		if sctOK {
+			return &ct.SignedCertificateTimestamp{}, nil
+		}
+		return nil, errors.New("model: malformed SCT")
+	})
+	max := 7
+	if vr.Tier() == 1 {
+		max = 10
+	}
+	body := vr.Bytes("list", vr.Int("n", 0, max))
+	ext := pkix.Extension{Id: oidExtensionSignedCertificateTimestampList, Value: append([]byte{4, byte(len(body))}, body...)}
+	var err error
+	out := &Certificate{}
+	panicked := vr.MayPanic(func() { err = parseSignedCertificateTimestampList(out, ext) })
+	vr.Assert(!panicked, "an arbitrary SCT-list extension body never panics the parser")
+	if err == nil {
+		vr.Cover("accepted")
+	} else {
+		vr.Cover("rejected")
+	}
+}
